@@ -276,6 +276,8 @@ BASE_POINT = {
     'mc': 'none',         # D9: none | p0:<granting index> | p1:<granting index>
     'mcsig': 'io',        # D9b: formals of claim/release: io = claim(in,out) release(out) | none | inout = claim(inout) release(in)
     'mcreply': 'simple',  # D9d: how the claim event writes its reply enum (declared INSIDE the interface): simple | itf (IMc0.Res) | full
+    'mcshare': 'none',    # D9e: another port with the SAME interface as the multi-client port: none | prov (a plain provides port
+                          #      declared BEFORE it; needs mc=p1) | req (the first requires port)
     'mcmenu': 'full',     # D9c: full = claim, release, two other in-events, two out-events | bare = claim, release, one out-event
     'kind': 'component',  # D10
     'prefix': '',         # D11: '' | 'Other.Project'
@@ -302,6 +304,7 @@ DIMS = {
     'mcsig': ['io', 'none', 'inout'],
     'mcmenu': ['full', 'bare'],
     'mcreply': ['simple', 'itf', 'full'],
+    'mcshare': ['none', 'prov', 'req'],
     'kind': ['component', 'system'],
     'prefix': ['', 'Other.Project', 'M'],     # 'M': the name of the innermost namespace of an encapsulee in N.M
     'stem': ['M', 'VeryLongDezyneModelFileNameForTheHeatingSubsystemCtrl'],
@@ -440,6 +443,13 @@ def valid_point(pt):
         return False
     if pt.get('mcreply', 'simple') != 'simple' and pt['mc'] == 'none':
         return False
+    ms = pt.get('mcshare', 'none')
+    if ms != 'none' and (pt['mc'] == 'none' or pt.get('extscope') == 'split'):
+        return False
+    if ms == 'prov' and not pt['mc'].startswith('p1'):
+        return False
+    if ms == 'req' and pt['nreq'] < 1:
+        return False
     if pt.get('portorder', 'grouped') != 'grouped' and (pt['nprov'] + pt['nreq'] + pt['ninj'] < 3 or pt['nprov'] < 1):
         return False
     if pt['nreq'] == 0 and pt['rsem'] != 'allmts':
@@ -520,10 +530,17 @@ def build_model(pt):
         for i in range(ninj):
             ports.append([inames[i], written('IShared'), 'requires', True])
     else:
+        mcshare = pt.get('mcshare', 'none')
         for i in range(nprov):
             if mc_port == i:
-                make_itf(f'IMc{i}', True)
+                if not have_itf(f'IMc{i}'):
+                    make_itf(f'IMc{i}', True)
                 ports.append([pnames[i], written(f'IMc{i}'), 'provides', False])
+            elif mcshare == 'prov' and mc_port is not None and i < mc_port:
+                # a plain provides port of the multi-client port's interface, declared before it
+                if not have_itf(f'IMc{mc_port}'):
+                    make_itf(f'IMc{mc_port}', True)
+                ports.append([pnames[i], written(f'IMc{mc_port}'), 'provides', False])
             elif aba:
                 name = 'IPa' if i != 1 else 'IPb'
                 if not have_itf(name):
@@ -537,7 +554,9 @@ def build_model(pt):
                 make_itf(f'IP{i}', False)
                 ports.append([pnames[i], written(f'IP{i}'), 'provides', False])
         for i in range(nreq):
-            if aba:
+            if mcshare == 'req' and mc_port is not None and i == 0:
+                ports.append([rnames[i], written(f'IMc{mc_port}'), 'requires', False])
+            elif aba:
                 name = 'IRa' if i != 1 else 'IRb'
                 if not have_itf(name):
                     make_itf(name, False)
@@ -662,6 +681,18 @@ def semantics_origin_menu_cross():
     return out
 
 
+def small_cross():
+    """QUICK: the complete cross product of five two-valued core dimensions - origin x provides semantics x requires
+    semantics x injected port x multi-client."""
+    out = []
+    for fac, psem, rsem, ninj, mc in itertools.product(DIMS['fac'], DIMS['psem'], ('allmts', 'allsts'), (0, 1), ('none', 'p0:1')):
+        pt = dict(BASE_POINT)
+        pt.update({'fac': fac, 'psem': psem, 'rsem': rsem, 'ninj': ninj, 'mc': mc})
+        if valid_point(pt):
+            out.append(pt)
+    return out
+
+
 def core_cross():
     """THOROUGH: the complete cross product of eight core dimensions with reduced value sets - every interaction of any
     number of them: origin x provides semantics x requires semantics x multi-client x component/system x namespace depth
@@ -687,6 +718,17 @@ def lab_points(k):
         if key not in seen:
             seen.add(key)
             out.append(pt)
+    for pt in extra_points(k):
+        key = point_id(pt)
+        if key not in seen:
+            seen.add(key)
+            out.append(pt)
+    return out
+
+
+def extra_points(k):
+    """Cross products and corner points beyond the deviation-bounded neighbourhoods (also used by C13)."""
+    seen, out = set(), []
     corners = []
     for base in (BASE_POINT, mc_base_point()):
         for delta in ({'ns': 'N.M', 'place': 'shadow', 'spell': 'full'},          # namespace shadowing
@@ -696,6 +738,8 @@ def lab_points(k):
                       {'mc': 'p1:0', 'nprov': 3, 'nreq': 3, 'names': 'caps'},       # ... in the middle of three
                       {'nprov': 3, 'nreq': 3, 'share': 'aba'},                     # same interface on non-adjacent ports
                       {'stem': DIMS['stem'][1], 'fac': 'import'},                  # long shell name, both origins
+                      {'mc': 'p1:0', 'nprov': 2, 'mcshare': 'prov'},               # the multi-client interface also on a plain port
+                      {'mc': 'p0:0', 'mcshare': 'req'},
                       {'ns': 'N.M', 'prefix': 'M'},        # support namespace named like the encapsulee's innermost namespace
                       {'nprov': 2, 'nreq': 2, 'portorder': 'interleaved'},         # ports not grouped by direction
                       {'nprov': 3, 'nreq': 3, 'rsem': 'lastmts'}):
@@ -703,7 +747,7 @@ def lab_points(k):
             pt.update(delta)
             if valid_point(pt):
                 corners.append(pt)
-    for pt in semantics_origin_cross() + semantics_origin_menu_cross() + corners + (core_cross() if k >= 2 else []):
+    for pt in semantics_origin_cross() + semantics_origin_menu_cross() + corners + small_cross() + (core_cross() if k >= 2 else []):
         key = point_id(pt)
         if key not in seen:
             seen.add(key)
